@@ -1031,6 +1031,37 @@ free_task_ht(void)
 }
 
 static int
+fdtext(const char *fld, const char *s)
+{
+/* print FLD:S with S escaped as TEXT (RFC 5545, 3.3.11), which is what
+ * echsx's reader undoes; a value with a line break in it must not become
+ * lines of its own in the request */
+	int rc = 0;
+
+	rc -= fdwrite(fld, strlen(fld)) < 0;
+	rc -= fdputc(':') < 0;
+	for (const char *sp = s; *sp; sp++) {
+		switch (*sp) {
+		case '\\':
+		case ';':
+		case ',':
+			rc -= fdputc('\\') < 0;
+			rc -= fdputc(*sp) < 0;
+			break;
+		case '\n':
+			rc -= fdputc('\\') < 0;
+			rc -= fdputc('n') < 0;
+			break;
+		default:
+			rc -= fdputc(*sp) < 0;
+			break;
+		}
+	}
+	rc -= fdputc('\n') < 0;
+	return rc;
+}
+
+static int
 vtodoify(int ofd, _task_t t)
 {
 	static const char vcal_hdr[] = "\
@@ -1061,8 +1092,8 @@ END:VTODO\n";
 	}
 
 
-	rc -= fdprintf("UID:%s\n", obint_name(t->t->oid)) < 0;
-	rc -= fdprintf("SUMMARY:%s\n", t->t->cmd) < 0;
+	rc += fdtext("UID", obint_name(t->t->oid));
+	rc += fdtext("SUMMARY", t->t->cmd);
 	if (UNLIKELY(rc < 0)) {
 		goto out;
 	}
@@ -1081,8 +1112,8 @@ END:VTODO\n";
 
 		rc -= fdprintf("X-ECHS-SETUID:%u\n", (uid_t)run_as.u) < 0;
 		rc -= fdprintf("X-ECHS-SETGID:%u\n", (gid_t)run_as.g) < 0;
-		rc -= fdprintf("X-ECHS-SHELL:%s\n", run_as.sh) < 0;
-		rc -= fdprintf("LOCATION:%s\n", run_as.wd) < 0;
+		rc += fdtext("X-ECHS-SHELL", run_as.sh);
+		rc += fdtext("LOCATION", run_as.wd);
 	}
 	if (UNLIKELY(rc < 0)) {
 		goto out;
@@ -1110,16 +1141,16 @@ END:VTODO\n";
 	rc -= fdprintf("X-ECHS-MAIL-OUT:%u\n", (unsigned int)t->t->mailout) < 0;
 	rc -= fdprintf("X-ECHS-MAIL-ERR:%u\n", (unsigned int)t->t->mailerr) < 0;
 	if (t->t->in) {
-		rc -= fdprintf("X-ECHS-IFILE:%s\n", t->t->in) < 0;
+		rc += fdtext("X-ECHS-IFILE", t->t->in);
 	}
 	if (t->t->out) {
-		rc -= fdprintf("X-ECHS-OFILE:%s\n", t->t->out) < 0;
+		rc += fdtext("X-ECHS-OFILE", t->t->out);
 	}
 	if (t->t->err) {
-		rc -= fdprintf("X-ECHS-EFILE:%s\n", t->t->err) < 0;
+		rc += fdtext("X-ECHS-EFILE", t->t->err);
 	}
 	if (t->t->org) {
-		rc -= fdprintf("ORGANIZER:%s\n", t->t->org) < 0;
+		rc += fdtext("ORGANIZER", t->t->org);
 	} else if (hnamez) {
 		/* singleton, extend mailfrom by +HOSTNAME */
 		const int hnamei = hnamez;
@@ -1130,7 +1161,7 @@ END:VTODO\n";
 	}
 	for (size_t j = 0U, natt = t->t->att ? t->t->att->nl : 0U;
 	     j < natt; j++) {
-		rc -= fdprintf("ATTENDEE:%s\n", t->t->att->l[j]) < 0;
+		rc += fdtext("ATTENDEE", t->t->att->l[j]);
 	}
 	if (UNLIKELY(rc < 0)) {
 		goto out;
